@@ -117,7 +117,7 @@ pub fn run(ctx: &mut Ctx) {
     }
     ctx.note("repo_wac_files", json!(nfiles));
     // part B: grammar-generated documents with randomised layout
-    let total = ctx.n(6_000, 10_000_000);
+    let total = ctx.n(30_000, 10_000_000);
     for case in ctx.cases(nfiles + total) {
         if case < nfiles {
             continue;
